@@ -50,6 +50,7 @@ def run(ctx: Ctx) -> None:
     r6(ctx, roles)
     r7(ctx, roles)
     r8(ctx, roles)
+    r9(ctx, roles, inv)
 
 
 # ---------------------------------------------------------------- inventory
@@ -555,4 +556,47 @@ def r8(ctx: Ctx, roles) -> None:
             if not ok:
                 bad.append(f"{f.qualname}: {norm(c)[:50]}")
     ctx.count("C08.R8", n_calls, 12, "library calls on the release path")
+    # ... nor by an expression of their own that can raise (a lookup, a dereference of something that may be None, a
+    # property or helper doing either) - in the closer and in what report_fatal_error does before it calls the closer
+    from ..totality import risky
+
+    rfe = roles.conn.methods.get("report_fatal_error")
+    scopes = [(roles.closer, list(roles.closer.node.body))]
+    if rfe is not None:
+        pre = []
+        for st in rfe.node.body:
+            if any(isinstance(c, ast.Call) and roles.closer in res.callees(rfe, c).funcs for c in ast.walk(st)) and not isinstance(st, (ast.If, ast.Try, ast.With)):
+                break
+            pre.append(st)
+        scopes.append((rfe, pre))
+    for f_, stmts in scopes:
+        rk = risky(ctx, res, f_, stmts)
+        ctx.ob("C08.R8", f_, f"no expression on the way to / inside the release sequence can raise by itself ({f_.name})", not rk, f"{rk[:3]}: the exception would leave before the connection is closed (CLOSED guard and waiters, timers, stop callback never released)")
     ctx.ob("C08.R8", roles.closer, f"every library call on the release path is a non-raising release operation ({len(seen)} functions)", not bad, f"{bad[:3]}: if it raises, the rest of the release sequence and the stop callback are skipped, and the CLOSED guard makes every later close a no-op")
+
+
+# ----------------------------------------------------------------------- R9
+def r9(ctx: Ctx, roles, inv: dict[str, str]) -> None:
+    """A resource is put where the closer will find it before anything is done with it: once a local holds a freshly
+    acquired socket / helper, every use of that local other than closing it comes after the store into the attribute
+    the closer releases (an exception in between would leak it - the closer sees None)."""
+    res = resolver(ctx)
+    n_sites = 0
+    for m in roles.conn.methods.values():
+        g = cfg_of(ctx, m)
+        for st, tgt, val in attr_writes(m):
+            if norm(tgt.value) != "self" or tgt.attr not in inv or not isinstance(val, ast.Name) or val.id in m.param_names():
+                continue
+            local = val.id
+            n_sites += 1
+            reg = occurred_before(g, lambda n, st=st: ["registered"] if n.ast is st else [])
+            early = []
+            for n in g.reachable():
+                if n.ast is None or n.ast is st:
+                    continue
+                for c in node_calls(n):
+                    uses = (isinstance(c.func, ast.Attribute) and isinstance(c.func.value, ast.Name) and c.func.value.id == local and c.func.attr != "close") or any(isinstance(a, ast.Name) and a.id == local for a in list(c.args) + [k.value for k in c.keywords])
+                    if uses and "registered" not in reg.get(n, frozenset()):
+                        early.append(f"L{c.lineno} {norm(c)[:40]}")
+            ctx.ob("C08.R9", m, f"`{local}` is stored into self.{tgt.attr} before anything else is done with it", not early, f"{early[:3]} can raise while the closer still sees self.{tgt.attr} as None: the resource would never be released")
+    ctx.count("C08.R9", n_sites, 1, "resources registered from a local")
